@@ -12,7 +12,8 @@ def c03(tier=None):
     c = Check("C03", ["Wasp.Properties.C03", "Wasp.Properties.C06", "Wasp.Properties.C04", "Wasp.Properties.Facts.C03"], tier)
     c.build()
     samples = []
-    scs = [gen_retransmit(c.rng, c.rng.choice([1, 1, 2])) for _ in range(n_of(c, 14, 200))]
+    scs = brokerlib.corpus(c.rng, ["slow-qos2", "wrong-type-ack", "inbound-outbound-id"])
+    scs += [gen_retransmit(c.rng, c.rng.choice([1, 1, 2])) for _ in range(n_of(c, 14, 200))]
     run_scenarios(c, "retransmission-scripts", scs, samples)
     from checks import writerlib
     writerlib.add_pool_suites(c, samples)
@@ -24,7 +25,8 @@ def c05(tier=None):
     c = Check("C05", ["Wasp.Properties.C05", "Wasp.Properties.C04", "Wasp.Properties.Facts.C05"], tier)
     c.build()
     samples = []
-    scs = [gen_faults(c.rng, c.rng.choice([1, 2, 3, 3])) for _ in range(n_of(c, 24, 300))]
+    scs = brokerlib.corpus(c.rng, ["inbound-outbound-id"])
+    scs += [gen_faults(c.rng, c.rng.choice([1, 2, 3, 3])) for _ in range(n_of(c, 24, 300))]
     run_scenarios(c, "publish-under-write-failures", scs, samples)
     return c.finish(samples=samples, rule="case = one placement of subscribers over 1-3 nodes with 3-8 publishes (QoS 0/1/2, repeated PUBREL), each under a fresh pattern of local-log and remote-node write failures")
 
@@ -33,7 +35,7 @@ def c14(tier=None):
     c = Check("C14", ["Wasp.Properties.C14", "Wasp.Properties.Facts.C14"], tier)
     c.build()
     samples = []
-    scs = [gen_faults(c.rng, c.rng.choice([2, 3, 3])) for _ in range(n_of(c, 14, 200))]
+    scs = [gen_faults(c.rng, c.rng.choice([2, 3, 3])) for _ in range(n_of(c, 20, 250))]
     run_scenarios(c, "cross-node-placement-and-unreachable-subsets", scs, samples)
     scs = [gen_converged(c.rng, c.rng.choice([2, 3]), 1, c.rng.choice([10, 16]), {"pub": 8, "sub": 4}) for _ in range(n_of(c, 6, 80))]
     run_scenarios(c, "cross-node-routing", scs, samples)
@@ -46,8 +48,10 @@ def c11(tier=None):
     samples = []
     scs = [gen_lifecycle(c.rng, c.rng.choice([1, 2, 3]), 1, takeover=0.15) for _ in range(n_of(c, 12, 160))]
     run_scenarios(c, "session-lifecycle-converged", scs, samples)
-    scs = [gen_lifecycle(c.rng, c.rng.choice([2, 3]), 1, takeover=0.1, fine_gossip=True) for _ in range(n_of(c, 8, 120))]
+    scs = brokerlib.corpus(c.rng, ["removal-overtakes-creation", "takeover-out-of-order"])
+    scs += [gen_lifecycle(c.rng, c.rng.choice([2, 3]), 1, takeover=0.1, fine_gossip=True) for _ in range(n_of(c, 8, 120))]
     run_scenarios(c, "session-lifecycle-gossip-schedules", scs, samples)
+    brokerlib.add_nodefail_suites(c, samples)
     brokerlib.add_timing_suites(c, samples)
     return c.finish(samples=samples, rule="case = one session script (connect, subscribe sets, publish, ping, DISCONNECT / connection loss / displacement) on 1-3 nodes; gossip fully delivered after each change (oracle on packets and on every node's listing) or link by link in random order (model comparison)")
 
@@ -58,7 +62,8 @@ def c12(tier=None):
     samples = []
     scs = [gen_lifecycle(c.rng, c.rng.choice([1, 2, 2]), 1, takeover=0.6) for _ in range(n_of(c, 12, 160))]
     run_scenarios(c, "takeover-converged", scs, samples)
-    scs = [gen_lifecycle(c.rng, c.rng.choice([2, 3]), 1, takeover=0.5, fine_gossip=True) for _ in range(n_of(c, 8, 120))]
+    scs = brokerlib.corpus(c.rng, ["takeover-out-of-order", "removal-overtakes-creation"])
+    scs += [gen_lifecycle(c.rng, c.rng.choice([2, 3]), 1, takeover=0.5, fine_gossip=True) for _ in range(n_of(c, 8, 120))]
     run_scenarios(c, "takeover-gossip-schedules", scs, samples)
     return c.finish(samples=samples, rule="case = one script with pairs / chains of connections sharing a client identifier on the same or different nodes, old-session ping / subscribe / disconnect and gossip deliveries interleaved")
 
@@ -88,7 +93,8 @@ def c02(tier=None):
     c = Check("C02", ["Wasp.Properties.C02", "Wasp.Properties.C15", "Wasp.Properties.Facts.C02"], tier)
     c.build()
     samples = []
-    scs = [gen_converged(c.rng, 1, 1, c.rng.choice([10, 14]), {"pub": 10, "sub": 3, "unsub": 0.5, "end": 0.5}) for _ in range(n_of(c, 8, 100))]
+    scs = brokerlib.corpus(c.rng, ["first-message", "slow-qos2", "inbound-outbound-id"])
+    scs += [gen_converged(c.rng, 1, 1, c.rng.choice([10, 14]), {"pub": 10, "sub": 3, "unsub": 0.5, "end": 0.5}) for _ in range(n_of(c, 8, 100))]
     run_scenarios(c, "acked-publish-delivered", scs, samples)
     # acknowledged publishes must reach subscribers whose earlier QoS 1/2 exchanges are slow, time out and are resumed
     scs = [gen_retransmit(c.rng, 1) for _ in range(n_of(c, 8, 100))]
